@@ -31,10 +31,17 @@ def run(ck, ctx):
     ck.nd("convergence as a run-time fact (gossip/anti-entropy liveness, partitions); TTL agreement")
     from . import c07
     c07.certify(ck, rid=lambda r: "R06.8", floor_id="R06.8")
+    ck.rule("R06.9", "the stamp order replicas agree on is produced by a monotone clock: every store to LamportClock.time is time+c or "
+                     "max(time, x)+c, tick/update advance on every path, and no code replaces a node clock or its owner wholesale "
+                     "(shared with C08 R08.1): a node whose clock falls behind a value it holds stamps its next accepted write below that "
+                     "value - it serves the new value while every peer keeps the old one")
     for cfg in ctx.configs:
         prog = ctx.prog(cfg)
         ck.configs.append(cfg)
         ck.fn_count += len(prog.fns)
+        from . import c08 as _c08
+        from .core import Alias as _Alias
+        _c08._r081(_Alias(ck, "R08.1", "R06.9"), prog, cfg)
         _r061(ck, prog, cfg)
         _r062(ck, prog, cfg)
         _r063(ck, prog, cfg)
